@@ -283,8 +283,29 @@ def check_zero_or_none(ctx):
     ctx.ob("C17.4", "verif", True, "no truthiness test of %s anywhere in the program (%d found)" % ("/".join(attrs), n), nontrivial=False)
 
 
+def check_limit_order(ctx):
+    """ORDER: Axes.set_xticks / set_yticks widen the view so that every tick is visible; limits requested with -xlim / -ylim are therefore
+    honoured only if they are applied AFTER the ticks of the same axis (and after anything else that rescales the view: set_xscale,
+    autoscale, axis('equal')...).  Read off the event log of the folded _adjust_axis (program order, helpers inlined)."""
+    prog = ctx.prog
+    site = "verif.output.Output._adjust_axis"
+    m = prog.module("verif.output")
+    ev = trace.trace(prog, site)
+    calls = [(i, e) for i, e in enumerate(ev.events) if e["kind"] == "call"]
+    for a in ("x", "y"):
+        lims = [i for i, e in calls if e["name"].endswith(".set_%slim" % a)]
+        ticks = [(i, e) for i, e in calls if e["name"].endswith(".set_%sticks" % a)]
+        ctx.need(lims, "%s: no call of set_%slim found" % (site, a))
+        late = [(i, e) for i, e in ticks if i > min(lims)]
+        ctx.ob("C17.5", site, not late, "-%slim is applied after -%sticks (set_%sticks widens the view to show every tick)" % (a, a, a),
+               loc=prog.loc(m, late[0][1]["node"]) if late else None,
+               msg="set_%sticks is called after set_%slim: a tick outside the requested limits widens the axis again and -%slim is not honoured" % (a, a, a))
+
+
 def run(ctx):
     ctx.rule("C17.1", "appearance option -> driver variable -> attribute initialised and READ -> matplotlib call/keyword")
+    ctx.rule("C17.5", "axis limits are applied after the tick positions of the same axis")
+    check_limit_order(ctx)
     ctx.rule("C17.2", "guard/use agreement inside _adjust_axis; style lists cycled modulo their own length")
     ctx.rule("C17.3", "effects go through the axes being adjusted; _adjust_axes siblings; margins")
     opts = c13.load_options()
